@@ -32,6 +32,7 @@ Proof.
         by (destruct top; [apply N.leb_le; lia|reflexivity]).
       specialize (Hb W0). destruct (N.ltb_spec 0 a); cbn in Hb; apply N.eqb_eq; [|lia].
       apply N.eqb_eq in Hb. lia.
+  - exists 0%N. destruct top; [apply N.leb_le; lia|reflexivity].
 Qed.
 
 Lemma max_total top : Total (max_ops top).
@@ -48,4 +49,103 @@ Proof.
       apply N.eqb_eq in Ht. lia.
   - split; [discriminate|]. intros Ht. specialize (Ht (a + 1)%N Logic.eq_refl).
     destruct (N.ltb_spec a (a + 1)); cbn in Ht; [|lia]. apply N.eqb_eq in Ht. lia.
+Qed.
+
+Lemma min_laws top : LatLaws (min_ops top).
+Proof.
+  split; t.
+  - apply N.eqb_refl.
+  - rewrite N.eqb_sym; assumption.
+  - apply N.eqb_eq in H2, H3. apply N.eqb_eq. congruence.
+  - destruct (N.ltb b a); cbn; assumption.
+  - apply N.eqb_eq in H3, H4; subst. apply N.eqb_refl.
+  - rewrite N.ltb_irrefl. cbn. apply N.eqb_refl.
+  - destruct (N.ltb_spec a b), (N.ltb_spec b a); cbn; apply N.eqb_eq; lia.
+  - destruct (N.ltb_spec b a), (N.ltb_spec c b); cbn;
+      repeat match goal with |- context [N.ltb ?x ?y] => destruct (N.ltb_spec x y); cbn end;
+      apply N.eqb_eq; lia.
+  - destruct (N.ltb_spec b a); cbn; [|rewrite N.eqb_refl; reflexivity].
+    destruct (N.eqb_spec b a); cbn; [lia|reflexivity].
+  - destruct (N.ltb_spec b a), (N.ltb_spec a b); cbn; f_equal; try lia.
+    + rewrite (proj2 (N.compare_gt_iff a b)); [reflexivity|assumption].
+    + rewrite (proj2 (N.compare_lt_iff a b)); [reflexivity|assumption].
+    + rewrite (proj2 (N.compare_eq_iff a b)); [reflexivity|lia].
+  - destruct top as [tp|].
+    + split.
+      * intros Hb b Wb. apply N.eqb_eq in Hb; subst. apply N.leb_le in Wb.
+        destruct (N.ltb_spec tp b); cbn; [|apply N.eqb_refl]. apply N.eqb_eq. lia.
+      * intros Hb. specialize (Hb tp (N.leb_refl tp)). apply N.leb_le in H.
+        destruct (N.ltb_spec a tp); cbn in Hb; apply N.eqb_eq; [|lia].
+        apply N.eqb_eq in Hb. lia.
+    + split; [discriminate|]. intros Hb. specialize (Hb (a + 1)%N Logic.eq_refl).
+      destruct (N.ltb_spec a (a + 1)); cbn in Hb; [|lia]. apply N.eqb_eq in Hb. lia.
+  - exists 0%N. destruct top; [apply N.leb_le; lia|reflexivity].
+Qed.
+
+Lemma min_total top : Total (min_ops top).
+Proof. t. discriminate. Qed.
+
+Lemma min_toplaw top : TopLaw (min_ops top).
+Proof.
+  intros a Wa. unfold W, Le, E, m in *. cbn in *. split.
+  - intros Ht b Wb. apply N.eqb_eq in Ht; subst.
+    destruct (N.ltb_spec b 0); cbn; apply N.eqb_eq; lia.
+  - intros Ht. assert (W0 : in_range top 0 = true)
+      by (unfold in_range; destruct top; [apply N.leb_le; lia|reflexivity]).
+    specialize (Ht 0%N W0). destruct (N.ltb_spec 0 a); cbn in Ht; apply N.eqb_eq; [|lia].
+    apply N.eqb_eq in Ht. lia.
+Qed.
+
+Lemma unit_laws : LatLaws unit_ops.
+Proof.
+  split; t; try reflexivity.
+  - split; [reflexivity|]. intros; reflexivity.
+  - exists tt. reflexivity.
+Qed.
+
+Lemma unit_total : Total unit_ops.
+Proof. t. discriminate. Qed.
+
+Lemma unit_toplaw : TopLaw unit_ops.
+Proof. intros a Wa. unfold Le, E, m. cbn. split; reflexivity. Qed.
+
+Lemma conflict_laws : LatLaws conflict_ops.
+Proof.
+  split; t.
+  - destruct a; [apply N.eqb_refl|reflexivity].
+  - destruct a, b; try assumption; try discriminate. rewrite N.eqb_sym. assumption.
+  - destruct a, b, c; try assumption; try discriminate.
+    apply N.eqb_eq in H2, H3. apply N.eqb_eq. congruence.
+  - reflexivity.
+  - destruct a as [x|], a' as [x'|], b as [y|], b' as [y'|]; try discriminate; cbn; try reflexivity.
+    apply N.eqb_eq in H3, H4. subst.
+    destruct (N.eqb x' y'); cbn; [apply N.eqb_refl|reflexivity].
+  - destruct a as [x|]; cbn; [|reflexivity]. rewrite N.eqb_refl. cbn. apply N.eqb_refl.
+  - destruct a as [x|], b as [y|]; cbn; try reflexivity.
+    rewrite (N.eqb_sym y x). destruct (N.eqb_spec x y); cbn; [|reflexivity].
+    subst. apply N.eqb_refl.
+  - destruct a as [x|], b as [y|], c as [z|]; cbn; try reflexivity.
+    + destruct (N.eqb_spec x y) as [e1|n1]; cbn;
+      destruct (N.eqb_spec y z) as [e2|n2]; cbn;
+      repeat match goal with |- context [N.eqb ?p ?q] => destruct (N.eqb_spec p q); cbn end;
+      try reflexivity; try congruence.
+    + destruct (N.eqb x y); reflexivity.
+  - destruct a as [x|], b as [y|]; cbn; try reflexivity.
+    destruct (N.eqb_spec x y); cbn; [rewrite N.eqb_refl|]; reflexivity.
+  - destruct a as [x|], b as [y|]; cbn; try reflexivity.
+    rewrite (N.eqb_sym y x). destruct (N.eqb x y); reflexivity.
+  - split; [discriminate|]. intros Hb. exfalso.
+    destruct a as [x|].
+    + specialize (Hb (Some (x + 1)%N) Logic.eq_refl). cbn in Hb.
+      destruct (N.eqb_spec (x + 1) x); cbn in Hb; [lia|discriminate].
+    + specialize (Hb (Some 0%N) Logic.eq_refl). cbn in Hb. discriminate.
+  - exists None. reflexivity.
+Qed.
+
+Lemma conflict_toplaw : TopLaw conflict_ops.
+Proof.
+  intros a Wa. unfold W, Le, E, m in *. cbn in *. split.
+  - intros Ht b Wb. destruct a; [discriminate|]. reflexivity.
+  - intros Ht. destruct a as [x|]; [|reflexivity].
+    specialize (Ht None Logic.eq_refl). cbn in Ht. discriminate.
 Qed.
